@@ -66,6 +66,7 @@ Definition coll_slice (c : coll) (its : list item) : result coll :=
   else if Nat.ltb (n_aligned c) (length its) then Err EIndex
   else
     match mapr (fun m => match sliced_shape (mshape m) (member_item m its) with
+                         | Ok [] => Err EValue          (* a 0-d cube has no WCS: cube slicing refuses *)
                          | Ok sh => Ok (mkM (mkey m) sh (mal m)) | Err e => Err e end) (members c) with
     | Err e => Err e
     | Ok ms' =>
